@@ -216,7 +216,7 @@ def run_family(prop, tier):
     t0 = time.time()
     rng = random.Random(seed() * 1000 + int(prop[1:]))
     h = substrate.load()
-    n_total = {'quick': 1200, 'thorough': 30000}[tier]
+    n_total = {'quick': 900, 'thorough': 30000}[tier]
     events, metas = [], {}
     kinds = {}
     t_gen = time.time()
